@@ -22,7 +22,7 @@ import (
 )
 
 func (dec *Decoder) readObjectAsMap(structInfo structInfo) map[string]interface{} {
-	m := make(map[string]interface{}, len(structInfo.names))
+	m := make(map[string]interface{}, dec.prealloc(len(structInfo.names)))
 	t := reflect2.TypeOf(m).(*reflect2.UnsafeMapType)
 	if !dec.IsSimple() {
 		dec.refer.Add(m)
